@@ -116,7 +116,7 @@ def run(ctx):
             for mode in (["inner", "alm"] if prob.m > 0 else ["inner"]):
                 base.append((pname, prob, solver, direction, mode))
     breqs = [make_req(prob, s, d, mode, always=True) for (_, prob, s, d, mode) in base]
-    bouts = run_driver(ctx, "solve", "".join(r.to_input() for r in breqs), timeout=900)
+    bouts = run_driver(ctx, "solve", [r.to_input() for r in breqs], timeout=900)
     if bouts is None or len(bouts) != len(breqs):
         ctx.broke("correspondence", "drv_solve", "baseline runs failed rc=%s %s" % (getattr(ctx, "driver_rc", "?"), getattr(ctx, "driver_err", "")))
         return
@@ -139,7 +139,7 @@ def run(ctx):
     outs = []
     CH = 400
     for a in range(0, len(reqs), CH):
-        part = run_driver(ctx, "solve", "".join(r.to_input() for r in reqs[a:a + CH]), timeout=900)
+        part = run_driver(ctx, "solve", [r.to_input() for r in reqs[a:a + CH]], timeout=900)
         if part is None or len(part) != len(reqs[a:a + CH]):
             # locate the crashing case
             for r in reqs[a:a + CH]:
